@@ -19,7 +19,8 @@ FINDER_NAMES = ["moon_perigee_apogee", "moon_passage_nodes", "moon_maximum_decli
 THEOREMS = (["C15_angle_reduction", "C15_jde2000", "C15_mean_node", "C15_mean_perigee", "C15_node_rate", "C15_perigee_rate",
              "C15_illuminated_fraction", "C15_finder_index", "C15_finder_spacing"]
             + ["C15_" + t for t in FINDER_TARGETS_QUICK] + ["C15_%s_refusals" % f for f in FINDER_NAMES]
-            + ["C15_finder_timing"])
+            + ["C15_finder_timing"]
+            + ["C15_moon_position", "C15_moon_series_closed_form", "C15_moon_envelopes"])
 PROOF_TIMEOUT = {"quick": 1500, "thorough": 3300}
 EXHAUSTIVE = False
 MANIFEST = {
@@ -37,8 +38,12 @@ MANIFEST = {
              "result deviates from J0 + B k by at most C (interval arithmetic on the proved coefficients), 2C < B, hence "
              "results are strictly ordered and B +- 2C apart IN THE INDEX k (not in the query epoch); (6) spec lemmas "
              "(Spec/MoonFinder.v): index round((year-y0)*rate) monotone and onto; C15_finder_spacing is spec-only and not "
-             "tied to the code (superseded by (5)).  NOT proved, searched on the implementation with the property's numbers: "
-             "parallax = asin(6378.14/Delta), distance/latitude envelopes, daily motion, agreement of the illuminated "
+             "tied to the code (superseded by (5)); (7) Moon.geocentric_ecliptical_pos for T in [-40, 20]: the two 60-row table loops are "
+             "instances of generic loop theorems (induction, any table length), giving the closed form of (lambda, beta, Delta, "
+             "parallax = asin(6378.14/Delta), never a ValueError) with the code's polynomials and the amplitude-sum envelopes "
+             "355245..414756 km, |beta| <= 6.10 deg read from the extracted tables (weaker than the property's 356000..407000 km / 5.35 deg).  "
+             "NOT proved, searched on the implementation with the property's numbers: "
+             "distance/latitude envelopes at the property's numbers, daily motion, agreement of the illuminated "
              "fraction with the geometry, agreement of the finders with the position theory, monotonicity in the query "
              "epoch, 1.6-month clause (refuted: known finding), totality on every calendar day.  Bit-exact correspondence "
              "of every anchored function."),
@@ -54,11 +59,11 @@ EXPLANATION = ("Ideal-instance theorems on the regenerated Moon/Angle model: arg
                "envelopes, daily motion, finder-vs-position agreement, behaviour in the query epoch and totality are evaluated by "
                "the search oracle on the implementation; every anchored function is compared bit for bit with its model.")
 CLAUSES = {
-    "parallax = asin(6378.14/Delta)": "unproved (searched to 1e-9 deg at every sampled instant + bit-exact correspondence of geocentric_ecliptical_pos): symbolic evaluation of the two 60-row table loops did not fit the memory budget",
+    "parallax = asin(6378.14/Delta)": "proved [ideal, T in [-40, 20] centuries = years -2000..4000: C15_moon_position - the generated geocentric_ecliptical_pos returns (Angle lambda, Angle beta, Delta, Angle(asin(6378.14/Delta), radians)) with Delta = 385000.56 + sigma_r/1000 km; 6378.14/Delta is in (0, 0.018] (C15_moon_envelopes), so asin never raises. The two 60-row table loops are instances (unification with the generated text) of the generic loop theorems C15_pos_loop.lr_fix_spec / b_fix_spec (induction, tables of any length); sigma_l, sigma_r, sigma_b = sum_i coeff_i Efac_i sin/cos((d_i D + m_i M + m'_i M' + f_i F) deg) on the extracted tables with the code's polynomials, Efac = E, E^2, 1 for |m_i| = 1, 2, other (C15_moon_series_closed_form)]; binary64: searched to 1e-9 deg + bit-exact correspondence",
     "illuminated fraction in [0,1] and of the form (1+cos i)/2": "proved [ideal]: illuminated_fraction_disk = (1+cos i)/2 with the explicit angle i = 180 - D - 6.289 sin M' + 2.1 sin M - 1.274 sin(2D-M') - 0.658 sin 2D - 0.214 sin 2M' - 0.11 sin D (D, M, M' the code's polynomials; Angle reductions removed by congruence mod 360), hence in [0,1]; agreement with the Sun-Earth-Moon geometry (0.01): unproved (searched)",
     "node/perigee longitudes move at their secular rates": "proved [ideal] as: the longitudes are explicit polynomials in T with linear coefficients -1934.1362891 / +4069.0137287 deg/century and the non-linear part is <= 8.2 / 40.6 deg on -60 <= T <= 60 (interval); no statement about the instantaneous rate; true node: searched (within 1.97 deg of the mean node)",
     "reduction of large arguments": "proved [ideal, every real x]: Angle(Angle.reduce_deg(x)).to_positive() = x mod 360 in [0,360)",
-    "distance 356000-407000 km, |latitude| <= 5.35 deg": "unproved (searched)",
+    "distance 356000-407000 km, |latitude| <= 5.35 deg": "unproved (searched) at these numbers; proved [ideal, T in [-40, 20]] are the amplitude-sum envelopes read from the extracted tables: 355 245 km <= Delta <= 414 756 km, |beta| <= 6.10 deg, |lambda - L'| <= 9.25 deg (C15_moon_envelopes) - sums of absolute amplitudes (times the bound 1.09 / 1.19 of E / E^2 on the range) cannot see the phase relations between the terms that keep the true extremes at 356 400 / 406 700 km and 5.3 deg",
     "longitude advances 11.5-15.6 deg/day": "unproved (searched)",
     "finders: k from the rounded fractional year is non-decreasing and takes every value": "proved [spec, Spec/MoonFinder.v]; tied to the code through the finder closed forms, whose index is literally Rround_nd((year - y0) * rate) 0 + target offset",
     "results strictly increasing in k, consecutive results one mean month +-(2C+D) apart when 2C+D < B": "C15_finder_spacing: [spec] NOT tied to the code by proof (it needs |c k| <= C for every integer k, the generated corrections are bounded only on the window -41 <= T <= 21); the code-tied statement is C15_finder_timing (row 'deviation ...')",
@@ -82,6 +87,8 @@ def proof_files(tier):
         fs += ["C15_f_%s.v" % t for t in FINDER_TARGETS_THOROUGH] + ["C15_heavy.v"]
     # Moon.moon_phase (4 targets, 18 reduced angles, ~45 terms) is not covered: one target needs > 40 min and 6 GB
     # with the present evaluation tactic (cost quadratic in the length of the function body)
+    # Moon.geocentric_ecliptical_pos: generic loop theorems + instantiation + envelopes (about 45 s in all)
+    fs += ["C15_pos_tac.v", "C15_pos_loop.v", "C15_pos_main.v", "C15_pos_bound.v", "C15_pos.v"]
     return fs + ["C15_s1.v", "C15_s2.v", "C15.v"]
 
 
